@@ -158,13 +158,20 @@ class QueryPlanner:
         if isinstance(select.from_table, NativeQuery):
             integration_name = select.from_table.integration.parts[-1]
         else:
-            integration_name, table = self.resolve_database_table(select.from_table)
-
             # is it CTE?
-            table_name = table.parts[-1]
-            if integration_name == self.default_namespace and table_name in self.cte_results:
+            table = select.from_table
+            cte_result = self.get_cte_result(table)
+            if (
+                cte_result is None
+                and len(table.parts) == 2 and table.parts[0] == self.default_namespace
+            ):
+                # the join planner puts the default namespace before a name without database
+                cte_result = self.cte_results.get(table.parts[1])
+            if cte_result is not None:
                 select.from_table = None
-                return SubSelectStep(select, self.cte_results[table_name], table_name=table_name)
+                return SubSelectStep(select, cte_result, table_name=table.parts[-1])
+
+            integration_name, table = self.resolve_database_table(select.from_table)
 
         fetch_df_select = copy.deepcopy(select)
         self.prepare_integration_select(integration_name, fetch_df_select)
@@ -179,6 +186,11 @@ class QueryPlanner:
         """Plan for a select query that can be fully executed in an integration"""
 
         return self.plan.add_step(self.get_integration_select_step(select))
+
+    def get_cte_result(self, node):
+        # result of the planned common table expression, if the table is a reference to it (a name without database)
+        if isinstance(node, Identifier) and len(node.parts) == 1:
+            return self.cte_results.get(node.parts[0])
 
     def resolve_database_table(self, node: Identifier):
         # resolves integration name and table name
@@ -224,6 +236,11 @@ class QueryPlanner:
                 if isinstance(node, ast.Identifier):
                     if len(node.parts) == 1 and node.parts[0] in cte_names:
                         # cte names are not mdb objects and not tables: the tables are inside of the expression
+                        return
+
+                    if self.get_cte_result(node) is not None:
+                        # the expression is planned already: its result is inside of the planner
+                        mdb_entities.append(node)
                         return
 
                     integration, _ = self.resolve_database_table(node)
@@ -289,7 +306,11 @@ class QueryPlanner:
         #         return self.plan_integration_select(query)
 
         # find subselects
-        main_integration, _ = self.resolve_database_table(query.from_table)
+        if self.get_cte_result(query.from_table) is not None:
+            # the query runs over the result of a common table expression and not in an integration
+            main_integration = None
+        else:
+            main_integration, _ = self.resolve_database_table(query.from_table)
         is_api_db = self.integrations.get(main_integration, {}).get('class_type') == 'api'
 
         find_selects = self.get_nested_selects_plan_fnc(main_integration, force=is_api_db)
